@@ -192,6 +192,8 @@ class ProgGen:
     def ioi(self, value, p_let):
         """literal int or an int let of that value."""
         cands = [n for n in self.int_lets if self.lets[n] == value]
+        if value < 0:
+            cands = [n for n, v in self.lets.items() if isinstance(v, int) and not isinstance(v, bool) and v == value]
         if cands and self.rng.random() < p_let:
             return self.rng.choice(cands)
         return value
@@ -212,6 +214,16 @@ class ProgGen:
             i = rng.randrange(n)
             self.header.append(("map", name, src, self.ioi(i, pl)))
             self.single[name] = els[i]
+        elif rng.random() < self.p.get("p_negative_step", 0.15):
+            # a slice counting down: elements start, start+step, ... while > stop (stop may be -1 or lower)
+            step = -rng.choice([1, 1, 2, 3])
+            start = rng.randrange(n)
+            cnt = rng.randint(1, start // (-step) + 1)
+            last = start + (cnt - 1) * step
+            stop = rng.randint(max(last + step, -3), last - 1)
+            s_start = None if (start == 0 and rng.random() < 0.3) else self.ioi(start, pl)
+            self.header.append(("map", name, src, s_start, self.ioi(stop, pl), self.ioi(step, pl)))
+            self.elems[name] = [els[i] for i in range(start, stop, step)]
         else:
             start = rng.randrange(n)
             step = rng.choice([1, 1, 1, 2, 2, 3])
